@@ -363,6 +363,14 @@ func Dial(addr string, timeout time.Duration) (*Client, error) {
 	return &Client{Conn: c, br: bufio.NewReaderSize(c, 65536), Timeout: timeout}, nil
 }
 
+// Wrap makes a client of an established connection.
+func Wrap(c net.Conn, timeout time.Duration) *Client {
+	if tc, ok := c.(*net.TCPConn); ok {
+		_ = tc.SetNoDelay(true)
+	}
+	return &Client{Conn: c, br: bufio.NewReaderSize(c, 65536), Timeout: timeout}
+}
+
 // Send writes one command.
 func (c *Client) Send(args [][]byte) error {
 	if c.Timeout > 0 {
